@@ -130,6 +130,9 @@ def w_c11(seed):
             a = f"({rnd.choice(MAGS)} {u})"
             b = rnd.choice([f"({rnd.choice(MAGS)} {v})", f"({a} -> {v})"])
             exprs.append((a, b))
+    # different units of EXACTLY equal size (bit-identical conversion factors): the choice of the common unit must not depend on the operand order
+    for a, b in [("(29 kph)", "(29 km/h)"), ("(23 mph)", "(23 mile/hour)"), ("(123.456 mL)", "(123.456 cm^3)"), ("(0.7 kph)", "(0.7 km/h)"), ("(3.3 Hz)", "(3.3 Bq)"), ("(1.1 L)", "(1.1 dm^3)")]:
+        exprs.append((a, b))
     inputs = []
     for a, b in exprs:
         inputs.append(f"[{a} == {b}, {b} == {a}, {a} != {b}, {a} < {b}, {b} > {a}, {a} <= {b}, {b} >= {a}, {a} > {b}]")
@@ -170,6 +173,9 @@ def w_c12(seed):
             a, b = f"({rnd.choice(MAGS[:11])} {u})", f"({rnd.choice(MAGS[:11])} {v})"
             inputs.append(f"\"{{{a} + {b}}} | {{{b} + {a}}} | {{{a} - {b}}} | {{-({b} - {a})}}\"")
             meta.append((a, b))
+    for a, b in [("(29 kph)", "(29 km/h)"), ("(23 mph)", "(23 mile/hour)"), ("(0.7 kph)", "(0.3 km/h)")]:
+        inputs.append(f"\"{{{a} + {b}}} | {{{a} + {b}}} | {{{a} - {b}}} | {{-({b} - {a})}}\"")       # subtraction clause only (the display clause is for units of different size)
+        meta.append((a, b))
     # compound units whose sizes differ only through fractional or negative exponents
     for a, b in [("sqrt(4 km)", "sqrt(9 m)"), ("cbrt(8 L)", "cbrt(27 mL)"), ("(3 V / sqrt(1 Hz))", "(5 mV / sqrt(1 Hz))"), ("(2 / km)", "(3 / m)"), ("(1 / sqrt(4 s))", "(1 / sqrt(9 ms))"),
                  ("(2 m^2 / s)", "(3 cm^2 / s)"), ("(1 kg / m^3)", "(1 g / cm^3)"), ("(3 km/h)", "(2 m/s)"), ("(2 N m)", "(3 N cm)")]:
